@@ -20,6 +20,8 @@ struct Case {
     tls: bool,
     reject: bool,
     pipelined: usize,
+    /// the stream ends inside one more pipelined command (only used with reject)
+    partial_tail: bool,
 }
 
 fn run_case(c: &Case, st: &mut Stats) -> Result<(), Violation> {
@@ -35,7 +37,13 @@ fn run_case(c: &Case, st: &mut Stats) -> Result<(), Violation> {
     conv.handshake = frame(c.seq, &payload).0;
     conv.hs_seq = c.seq;
     let s = conv.stream();
-    let stream = Arc::new(s.bytes);
+    let mut bytes = s.bytes.clone();
+    if c.partial_tail {
+        // a further command cut off inside its payload
+        let f = frame(0, &with_byte(COM_QUERY, b"SELECT 'never completed'")).0;
+        bytes.extend_from_slice(&f[..f.len() - 5]);
+    }
+    let stream = Arc::new(bytes);
     let mut sim = sim_for(&stream, vec![]);
     sim.log_ops = false;
     let mut cfg = ConnCfg::new(std_behave());
@@ -107,6 +115,9 @@ fn run_case(c: &Case, st: &mut Stats) -> Result<(), Violation> {
     }
     if c.reject {
         st.bump("rejected");
+        if c.partial_tail {
+            st.bump("rejected_with_truncated_tail");
+        }
         if cbs.len() != 1 {
             return Err(Violation::new("command-after-reject", format!("callback {} ran although the shim rejected the client", cb_short(cbs[1]))));
         }
@@ -164,6 +175,7 @@ impl CapsSweep {
             tls: self.tls,
             reject: d[2] == 1,
             pipelined: 1,
+            partial_tail: false,
         })
     }
 }
@@ -214,7 +226,7 @@ impl Users {
         Users { users, trailers41 }
     }
     fn case(&self, idx: u64) -> Case {
-        let d = digits(idx, &[self.users.len() as u64, self.trailers41.len() as u64, 2, 2, 3, 2]);
+        let d = digits(idx, &[self.users.len() as u64, self.trailers41.len() as u64, 2, 2, 4, 2]);
         let is41 = d[2] == 0;
         Case {
             lo: if is41 { 0xa285 } else { 0x0005 },
@@ -224,7 +236,8 @@ impl Users {
             seq: 1,
             tls: d[5] == 1,
             reject: d[3] == 1,
-            pipelined: d[4] as usize,
+            pipelined: (d[4] % 3) as usize,
+            partial_tail: d[4] == 3 && d[3] == 1,
         }
     }
 }
@@ -233,7 +246,7 @@ impl Family for Users {
         "users-trailers-layouts".into()
     }
     fn len(&self) -> u64 {
-        (self.users.len() * self.trailers41.len() * 2 * 2 * 3 * 2) as u64
+        (self.users.len() * self.trailers41.len() * 2 * 2 * 4 * 2) as u64
     }
     fn run(&self, idx: u64, st: &mut Stats) -> Result<(), Violation> {
         let c = self.case(idx);
@@ -271,6 +284,7 @@ impl Family for SeqIds {
                 tls: false,
                 reject: d[2] == 1,
                 pipelined: 2,
+                partial_tail: false,
             },
             st,
         )
@@ -285,12 +299,12 @@ pub fn build(_quick: bool) -> Check {
     Check {
         id: "C11",
         level: "model_checking",
-        rule: "handshake responses: all 2^16 lower capability words x 4 upper words (the layout follows CLIENT_PROTOCOL_41) x accept/reject, without and with a TLS configuration (plaintext clients); 262 user names (empty, every single non-NUL byte, 255 and 70000 bytes, non-UTF-8) x 8 trailers x both layouts x accept/reject x 0..2 pipelined commands x TLS configured or not; every handshake sequence id. Oracle: first packet is a protocol-10 greeting with id 0 accepted by refwire and mysql_common, CLIENT_PROTOCOL_41 set, CLIENT_SSL set iff a TLS configuration is offered; after_authentication exactly once with the exact user bytes before any command; reject -> ERR 1045/28000 at id+1, run_on returns the shim's error, no command callback; accept -> OK at id+1 and the pipelined commands are served; CLIENT_SSL without a TLS configuration -> Err and no callback at all.".into(),
+        rule: "handshake responses: all 2^16 lower capability words x 4 upper words (the layout follows CLIENT_PROTOCOL_41) x accept/reject, without and with a TLS configuration (plaintext clients); 262 user names (empty, every single non-NUL byte, 255 and 70000 bytes, non-UTF-8) x 8 trailers x both layouts x accept/reject x 0..2 pipelined commands (and, when rejecting, a further command cut off inside its packet) x TLS configured or not; every handshake sequence id. Oracle: first packet is a protocol-10 greeting with id 0 accepted by refwire and mysql_common, CLIENT_PROTOCOL_41 set, CLIENT_SSL set iff a TLS configuration is offered; after_authentication exactly once with the exact user bytes before any command; reject -> ERR 1045/28000 at id+1, run_on returns the shim's error, no command callback; accept -> OK at id+1 and the pipelined commands are served; CLIENT_SSL without a TLS configuration -> Err and no callback at all.".into(),
         assumptions: vec!["masks with CLIENT_SSL against a TLS-offering shim are C18's scenarios (they need a real TLS client)".into()],
         bounds: json!({"capability_words": 65536, "upper_words": 4, "users": 262, "trailers": 8}),
         exhaustive: true,
         caps_hit: vec![],
         families: vec![Box::new(CapsSweep { tls: false }), Box::new(CapsSweep { tls: true }), Box::new(Users::new()), Box::new(SeqIds)],
-        required: vec!["ssl_requested_without_tls", "rejected", "accepted", "pipelined_behind_handshake", "layout_320", "non_utf8_users"],
+        required: vec!["ssl_requested_without_tls", "rejected", "accepted", "pipelined_behind_handshake", "layout_320", "non_utf8_users", "rejected_with_truncated_tail"],
     }
 }
